@@ -602,16 +602,19 @@ static void lin64(const int64_t* in, int64_t* o) {
 
 // returns 1 if all 64 exact samples are inside -512..511; *fit = the lane condition `lanesFit`
 // of Props/C09IdctBlock.lean (every dequantised coefficient within +-8191, every exact first-pass
-// intermediate within +-16383)
-static int exact_in_range_fit(const uint16_t* b, const uint16_t* q, int* fit) {
+// intermediate within +-16383); *fit2 = the weaker `lanesFit2` of Model/JpegIdctRange.lean
+// (coefficients within +-8191, intermediates within +-16400, the four 16-bit sums of every row of
+// the second pass within +-32767), which Props/C09IdctRange.lean proves for EVERY in-range block
+static int exact_in_range_fit(const uint16_t* b, const uint16_t* q, int* fit, int* fit2) {
   int64_t mid[64];
   *fit = 1;
+  *fit2 = 1;
   for (int c = 0; c < 8; c++) {
     int64_t d[8];
     uint16_t acs = 0;
     for (int r = 0; r < 8; r++) {
       d[r] = (int64_t)(int16_t)b[8 * r + c] * (int64_t)q[8 * r + c];
-      if (d[r] < -8191 || d[r] > 8191) *fit = 0;
+      if (d[r] < -8191 || d[r] > 8191) *fit = *fit2 = 0;
       if (r) acs |= b[8 * r + c];
     }
     if (!acs) {
@@ -624,6 +627,14 @@ static int exact_in_range_fit(const uint16_t* b, const uint16_t* q, int* fit) {
   }
   for (int i = 0; i < 64; i++) {
     if (mid[i] < -16383 || mid[i] > 16383) *fit = 0;
+    if (mid[i] < -16400 || mid[i] > 16400) *fit2 = 0;
+  }
+  for (int r = 0; r < 8; r++) {
+    const int64_t* in = &mid[8 * r];
+    int64_t s[4] = {in[0] + in[4], in[0] - in[4], in[7] + in[3], in[5] + in[1]};
+    for (int k = 0; k < 4; k++) {
+      if (s[k] < -32767 || s[k] > 32767) *fit2 = 0;
+    }
   }
   int ok = 1;
   for (int r = 0; r < 8; r++) {
@@ -644,8 +655,8 @@ static int exact_in_range_fit(const uint16_t* b, const uint16_t* q, int* fit) {
 }
 
 static int exact_in_range(const uint16_t* b, const uint16_t* q) {
-  int fit;
-  return exact_in_range_fit(b, q, &fit);
+  int fit, fit2;
+  return exact_in_range_fit(b, q, &fit, &fit2);
 }
 
 static void hex_out(const uint8_t* p, size_t n) {
@@ -707,9 +718,9 @@ static void cmd_idct(char** toks, int n) {
   }
 #endif
   {
-    int fit = 0;
-    int inr = exact_in_range_fit(b, q, &fit);
-    printf(" inrange=%d fit=%d\n", inr, fit);
+    int fit = 0, fit2 = 0;
+    int inr = exact_in_range_fit(b, q, &fit, &fit2);
+    printf(" inrange=%d fit=%d fit2=%d\n", inr, fit, fit2);
   }
   free(dec);
   free(cb);
